@@ -721,7 +721,8 @@ def _history(w, r, rec, nevents, want_model, parse_gitlog, snap_of, deadline=Non
             rec["log"].append(desc)
             cache.clear()
             changed = True
-        elif k < 0.40 and os.path.isdir(wsroot) and not any(norm(s_["dir"]) == "." for s_ in specs):
+        elif k < 0.40 and os.path.isdir(wsroot) and not any(norm(s_["dir"]) == "." for s_ in specs) and \
+                not os.path.exists(os.path.join(wsroot, ".git")):
             # the user puts something of his own into the workspace (no SCM directory)
             free = [d for d in ("a", "b", "sub", "nest", "own") if not os.path.exists(os.path.join(wsroot, d))]
             if free:
@@ -732,6 +733,7 @@ def _history(w, r, rec, nevents, want_model, parse_gitlog, snap_of, deadline=Non
                     fh.write(tok + "\n")
                 rec["log"].append("user-mkdir " + d)
                 touched.add(d)
+                cache.clear()
                 changed = True
         elif k < 0.62 and gd:
             d, path = r.choice(gd)
@@ -809,7 +811,8 @@ def _history(w, r, rec, nevents, want_model, parse_gitlog, snap_of, deadline=Non
             bob_event("dev", ["dev", "root"])
             bob_event("clean-attic", ["clean", "--attic"])
     elif not rec.get("cut") and tail < 0.87 and used and os.path.isdir(wsroot) and \
-            not any(norm(s_["dir"]) == "." for s_ in specs) and len(specs) < 4:
+            not any(norm(s_["dir"]) == "." for s_ in specs) and len(specs) < 4 and \
+            not os.path.exists(os.path.join(wsroot, ".git")):
         # the user's own directory where the recipe then wants a checkout: Bob has to refuse (collision)
         free = [d for d in ("a", "b", "sub", "nest", "own") if not os.path.exists(os.path.join(wsroot, d))
                 and not any(is_prefix(d, s_["dir"]) or is_prefix(s_["dir"], d) for s_ in specs)]
@@ -821,6 +824,7 @@ def _history(w, r, rec, nevents, want_model, parse_gitlog, snap_of, deadline=Non
                 fh.write(tok + "\n")
             rec["log"].append("user-mkdir " + d)
             touched.add(d)
+            cache.clear()
             specs = [dict(s_) for s_ in specs] + [gen_git_spec(r, w, d)]
             write_recipes(w, specs, used, policies)
             rec["log"].append("add-scm-at-user-dir " + d)
